@@ -335,13 +335,29 @@ Theorem C06_ut_canon_shape_idempotent bs lg t a b : UT2time bs lg = GtOk t a b -
 Proof. exact (ut_canon_idempotent bs lg t a b). Qed.
 Print Assumptions C06_ut_canon_shape_idempotent.
 
-Theorem C06_ut_der_verbatim_refuted :
+(* UTCTime_encode_der (fix 05 of notes/fixes/I): canonical whenever asn_UT2time reads the stored text *)
+Theorem C06_ut_der_depends_on_instant_only s1 lg1 s2 lg2 t a1 b1 a2 b2 :
+  UT2time s1 lg1 = GtOk t a1 b1 -> UT2time s2 lg2 = GtOk t a2 b2 -> ut_min <= t < ut_max ->
+  ut_der s1 lg1 = ut_der s2 lg2.
+Proof. exact (ut_der_same_instant s1 lg1 s2 lg2 t a1 b1 a2 b2). Qed.
+Print Assumptions C06_ut_der_depends_on_instant_only.
+
+Theorem C06_ut_der_shape_idempotent bs lg t a b : UT2time bs lg = GtOk t a b -> ut_min <= t < ut_max ->
+  exists ds, ut_der bs lg = ds ++ [90] /\ digits_ok ds /\ length ds = 12%nat /\
+    forall lg', ut_der (ut_der bs lg) lg' = ut_der bs lg.
+Proof. exact (ut_der_shape_idempotent bs lg t a b). Qed.
+Print Assumptions C06_ut_der_shape_idempotent.
+
+Theorem C06_ut_der_unread_verbatim bs lg : ut_canon bs lg = None -> ut_der bs lg = bs.
+Proof. exact (ut_der_unread_verbatim bs lg). Qed.
+Print Assumptions C06_ut_der_unread_verbatim.
+
+Theorem C06_ut_der_witnesses :
   UT2time u_2026_hm 0 = GtOk 1767268800 0 0 /\ UT2time u_2026 0 = GtOk 1767268800 0 0 /\
   UT2time u_2026_off 0 = GtOk 1767268800 0 0 /\
-  ut_der u_2026_hm <> ut_der u_2026 /\ ut_der u_2026_off <> ut_der u_2026 /\
-  ut_canon u_2026_hm 0 = Some u_2026 /\ ut_canon u_2026_off 0 = Some u_2026 /\ ut_canon u_2026 0 = Some u_2026.
-Proof. exact ut_der_verbatim_refuted. Qed.
-Print Assumptions C06_ut_der_verbatim_refuted.
+  ut_der u_2026_hm 0 = u_2026 /\ ut_der u_2026_off 0 = u_2026 /\ ut_der u_2026 0 = u_2026.
+Proof. exact ut_der_witnesses. Qed.
+Print Assumptions C06_ut_der_witnesses.
 
 (* compare_struct of GeneralizedTime, instants equal: the fraction branch *)
 Theorem C06_gt_compare_fix_is_value_order av ad bv bd : 0 <= ad <= 9 -> 0 <= bd <= 9 ->
@@ -349,15 +365,28 @@ Theorem C06_gt_compare_fix_is_value_order av ad bv bd : 0 <= ad <= 9 -> 0 <= bd 
 Proof. exact (frac_cmp_fix_nanos av ad bv bd). Qed.
 Print Assumptions C06_gt_compare_fix_is_value_order.
 
-Theorem C06_gt_compare_fraction_partial av ad bv bd : 0 <= bd -> ad = bd ->
+Theorem C06_gt_compare_fraction_value_order av ad bv bd : 0 <= ad -> 0 <= bd ->
   frac_cmp_c av ad bv bd = frac_cmp_fix av ad bv bd.
-Proof. exact (frac_cmp_c_partial av ad bv bd). Qed.
-Print Assumptions C06_gt_compare_fraction_partial.
+Proof. exact (frac_cmp_c_value_order av ad bv bd). Qed.
+Print Assumptions C06_gt_compare_fraction_value_order.
 
-Theorem C06_gt_compare_fraction_refuted :
-  frac_cmp_fix 5 1 50 2 = Eq /\ frac_cmp_c 5 1 50 2 = Lt /\
-  frac_cmp_fix 0 0 0 1 = Eq /\ frac_cmp_c 0 0 0 1 = Lt /\
-  frac_cmp_fix 5 1 25 2 = Gt /\ frac_cmp_c 5 1 25 2 = Lt /\
-  frac_cmp_fix 25 2 3 1 = Lt /\ frac_cmp_c 25 2 3 1 = Gt.
-Proof. exact frac_cmp_c_refuted. Qed.
-Print Assumptions C06_gt_compare_fraction_refuted.
+Theorem C06_gt_compare_fraction_nanos av ad bv bd : 0 <= ad <= 9 -> 0 <= bd <= 9 ->
+  frac_cmp_c av ad bv bd = (nanos av ad ?= nanos bv bd).
+Proof. exact (frac_cmp_c_nanos av ad bv bd). Qed.
+Print Assumptions C06_gt_compare_fraction_nanos.
+
+Theorem C06_gt_compare_fraction_eq_iff av ad bv bd : 0 <= ad -> 0 <= bd ->
+  (frac_cmp_c av ad bv bd = Eq <-> av * 10 ^ bd = bv * 10 ^ ad).
+Proof. exact (frac_cmp_c_eq_iff av ad bv bd). Qed.
+Print Assumptions C06_gt_compare_fraction_eq_iff.
+
+Theorem C06_gt_compare_fraction_antisym av ad bv bd : 0 <= ad -> 0 <= bd ->
+  frac_cmp_c bv bd av ad = CompOpp (frac_cmp_c av ad bv bd).
+Proof. exact (frac_cmp_c_antisym av ad bv bd). Qed.
+Print Assumptions C06_gt_compare_fraction_antisym.
+
+Theorem C06_gt_compare_fraction_witnesses :
+  frac_cmp_c 5 1 50 2 = Eq /\ frac_cmp_c 0 0 0 1 = Eq /\
+  frac_cmp_c 5 1 25 2 = Gt /\ frac_cmp_c 25 2 3 1 = Lt.
+Proof. exact frac_cmp_c_witnesses. Qed.
+Print Assumptions C06_gt_compare_fraction_witnesses.
